@@ -31,14 +31,19 @@ def configs(tier):
                 if tier == "quick" and auth and not modern and rig != "lib-lib":
                     continue
                 out.append(dict(rig=rig, modern=modern, auth=auth, nreq=nreq, big=[2]))
+    # what only a raw peer does: every envelope split (two reassemblies on one connection), and envelopes that would fit
+    # a segment split anyway, cut inside / at the end of the envelope header
+    for rig in ("lib-raw", "raw-lib"):
+        out.append(dict(rig=rig, modern=True, auth=False, nreq=2, big=[1, 2]))
+        out.append(dict(rig=rig, modern=True, auth=tier != "quick", nreq=2 if tier == "quick" else 3, big=[], small=[1, 2] if tier == "quick" else [1, 2, 3]))
     return out
 
 
 def explore(scratch, cfg, name):
     with open(scratch.file(name + ".cfg"), "w") as f:
-        f.write("SPECIFICATION Spec\nCONSTANTS\n  Modern = %s\n  Auth = %s\n  Rig = \"%s\"\n  NReq = %d\n  BigFrames = {%s}\n  Faults = {%s}\nINVARIANTS %s\nCHECK_DEADLOCK FALSE\n" % (
+        f.write("SPECIFICATION Spec\nCONSTANTS\n  Modern = %s\n  Auth = %s\n  Rig = \"%s\"\n  NReq = %d\n  BigFrames = {%s}\n  SplitSmall = {%s}\n  Faults = {%s}\nINVARIANTS %s\nCHECK_DEADLOCK FALSE\n" % (
             "TRUE" if cfg["modern"] else "FALSE", "TRUE" if cfg["auth"] else "FALSE", cfg["rig"], cfg["nreq"],
-            ", ".join(str(b) for b in cfg["big"]), ", ".join('"%s"' % k for k in cfg.get("faults", [])), " ".join(INVARIANTS)))
+            ", ".join(str(b) for b in cfg["big"]), ", ".join(str(b) for b in cfg.get("small", [])), ", ".join('"%s"' % k for k in cfg.get("faults", [])), " ".join(INVARIANTS)))
     raw = scratch.file(name + ".raw")
     res = require_ok(run_tlc(scratch, "Conn", cfg=name + ".cfg", marker='"SESSION"', outfile=raw, timeout=3000, workers=4), "Conn " + name)
     path = scratch.file(name + ".ndjson")
@@ -84,7 +89,8 @@ def replay(scratch, testbin, cfg, sessions, shards=8):
 def run_conn(scratch, tier, testbin, faults=False):
     out = dict(states=0, transitions=0, sessions=0, evaluations=0, distinct=0, violations=[], samples=[], runs=[])
     for cfg in (fault_configs(tier) if faults else configs(tier)):
-        name = "conn-%s-%s-%s%s" % (cfg["rig"], "modern" if cfg["modern"] else "legacy", "auth" if cfg["auth"] else "noauth", "-faults" if faults else "")
+        name = "conn-%s-%s-%s%s%s%s" % (cfg["rig"], "modern" if cfg["modern"] else "legacy", "auth" if cfg["auth"] else "noauth", "-faults" if faults else "",
+                                        "-big" + "".join(map(str, cfg["big"])) if cfg["big"] not in ([2], []) else "", "-small" + "".join(map(str, cfg["small"])) if cfg.get("small") else "")
         path, res, n = explore(scratch, cfg, name)
         out["states"] += res.distinct
         out["transitions"] += res.generated
